@@ -40,6 +40,9 @@ func (t Term) String() string { return t.S }
 func T(sort Sort, s string) Term { return Term{S: s, Sort: sort} }
 
 func app(sort Sort, op string, args ...Term) Term {
+	if len(args) == 0 {
+		return Term{S: op, Sort: sort}
+	}
 	var b strings.Builder
 	b.WriteByte('(')
 	b.WriteString(op)
@@ -368,7 +371,15 @@ func runOne(ctx context.Context, sp solverSpec, file string, timeoutS int) (verd
 	cmd.Stderr = &buf
 	_ = cmd.Run()
 	out = buf.String()
-	first := strings.TrimSpace(strings.SplitN(out, "\n", 2)[0])
+	first := ""
+	for _, ln := range strings.Split(out, "\n") {
+		ln = strings.TrimSpace(ln)
+		if ln == "" || strings.HasPrefix(ln, "WARNING") {
+			continue
+		}
+		first = ln
+		break
+	}
 	switch first {
 	case "unsat", "sat", "unknown":
 		return first, out
@@ -428,8 +439,8 @@ func (o *Obligation) discharge(rc runConfig, idx int) {
 	cancel()
 	o.Verdict, o.Solver, o.Output = best.verdict, best.solver, best.out
 	if best.verdict == "sat" {
-		if i := strings.Index(best.out, "\n"); i >= 0 {
-			o.Model = strings.TrimSpace(best.out[i+1:])
+		if i := strings.Index(best.out, "sat\n"); i >= 0 {
+			o.Model = strings.TrimSpace(best.out[i+4:])
 		}
 	}
 	o.TimeS = time.Since(start).Seconds()
